@@ -16,6 +16,8 @@
    {"op":"run","d":n,"fuel":m}                     core.run() until now + n
    {"op":"jump","fuel":m}                          core.run() until the armed deadline
    fn = {"id":n,"r":bool,"k":[fn…]}
+   any request but reset may carry "from":k (restore snapshot k before the
+   operation) and "to":k (save the state after the operation as snapshot k)
    All times in requests are ticks; all times in replies are µs (rounded to
    nearest, which is exact for tpu = 1).
 -/
@@ -27,6 +29,7 @@ structure St where
   w : World := {}
   n : Nat := 0        -- number of tasks (for the digest)
   tpu : Nat := 1
+  slots : Array World := #[]   -- snapshots for the depth-first enumeration of histories
 
 partial def fnOfJson (j : Json) : R Fn := do
   let kids ← (← fldArr j "k").toList.mapM fnOfJson
@@ -35,7 +38,7 @@ partial def fnOfJson (j : Json) : R Fn := do
 def us (tpu t : Nat) : Nat := (2 * t + tpu) / (2 * tpu)
 
 def jEv (tpu : Nat) : Ev → Json
-  | .fire tid now due seq => Json.arr #["fire", Json.num tid, Json.num (us tpu now), Json.num (us tpu due), Json.num seq]
+  | .fire tid now due _ => Json.arr #["fire", Json.num tid, Json.num (us tpu now), Json.num (us tpu due)]
   | .call id => Json.arr #["call", Json.num id]
   | .taskErr tid => Json.arr #["terr", Json.num tid]
   | .fnErr id => Json.arr #["ferr", Json.num id]
@@ -114,11 +117,26 @@ def handle (s : St) (j : Json) : R (St × Json) := do
     | "run" => do pure (Op.advRun (← fldNat j "d") (← fldNat j "fuel"))
     | "jump" => do pure (Op.jumpRun (← fldNat j "fuel"))
     | o => throw s!"unknown op {o}"
+  -- optional "from": restore snapshot k first; optional "to": save the result as snapshot k
+  let s ← match fldOpt j "from" with
+    | none => pure s
+    | some v => do
+        let k ← v.getNat?
+        match s.slots[k]? with
+        | some w => pure { s with w := w }
+        | none => throw "no such snapshot"
   let (w', aux) := s.w.step mop
   -- `delta` of `next` is a duration in ticks
   let aux := match mop with
     | .next => aux.map (us s.tpu)
     | _ => aux
-  pure (reply { s with w := w' } aux)
+  let (s, out) := reply { s with w := w' } aux
+  let s ← match fldOpt j "to" with
+    | none => pure s
+    | some v => do
+        let k ← v.getNat?
+        let slots := if k < s.slots.size then s.slots.set! k s.w else (s.slots ++ Array.replicate (k - s.slots.size) s.w).push s.w
+        pure { s with slots := slots }
+  pure (s, out)
 
 def main : IO Unit := loopS ({} : St) handle
